@@ -51,6 +51,10 @@ func fixBlock(from uintptr, block []byte, trampoline uintptr,
 	leastSize int, blockSize int) (fixedData []byte, fixedDataSize int, err error) {
 	var (
 		fixedBlock = make([]byte, 0)
+		// newPos 原指令位置 -> 修复后指令位置(前面的短跳转被扩展为长跳转后, 后续指令会整体后移)
+		newPos = make(map[int]int)
+		// innerRefs 目标地址落在 block 内部、未被改写的相对寻址指令: {原指令结束位置, 原目标位置, 修复后指令结束位置}
+		innerRefs = make([][3]int, 0)
 	)
 	logger.Debug("target fix ins >>>>>")
 
@@ -70,8 +74,14 @@ func fixBlock(from uintptr, block []byte, trampoline uintptr,
 			if l := copy(copyBlock, block); l != len(block) {
 				return nil, 0, errors.New("copy block array error")
 			}
-			fixedInsData := fixIns(ins, pos, copyBlock, blockSize, (uint64)(from), trampoline)
+			newPos[pos] = len(fixedBlock)
+			// 前面的指令被扩展后, 当前指令的新位置是 trampoline+len(fixedBlock), 而不是 trampoline+pos
+			fixedInsData := fixIns(ins, pos, copyBlock, blockSize, (uint64)(from),
+				trampoline+uintptr(len(fixedBlock)-pos))
 			fixedBlock = append(fixedBlock, fixedInsData...)
+			if target, ok := innerTarget(ins, pos, block, blockSize); ok {
+				innerRefs = append(innerRefs, [3]int{pos + ins.Len, target, len(fixedBlock)})
+			}
 
 			logger.Debugf("[%d]>[%d] 0x%x:\t%s\t\t%s\t\t%s", ins.Len, len(fixedInsData),
 				(uint64)(from)+(uint64)(pos), ins.Op, ins.String(), hex.EncodeToString(fixedInsData))
@@ -87,12 +97,49 @@ func fixBlock(from uintptr, block []byte, trampoline uintptr,
 			}
 			// fix jump to RET err: signal SIGSEGV: segmentation violation
 			if ins != nil && ins.String() != "RET" {
+				newPos[pos] = len(fixedBlock)
+				if err := checkInnerRefs(innerRefs, newPos, pos); err != nil {
+					return nil, 0, err
+				}
 				return fixedBlock, pos, nil
 			}
 		}
 	}
 
+	newPos[len(block)] = len(fixedBlock)
+	if err := checkInnerRefs(innerRefs, newPos, len(block)); err != nil {
+		return nil, 0, err
+	}
 	return fixedBlock, len(fixedBlock), nil
+}
+
+// innerTarget 返回未被改写的相对寻址指令在 block 内部的目标位置
+func innerTarget(ins *x86asm.Inst, pos int, block []byte, blockSize int) (int, bool) {
+	if ins.PCRelOff <= 0 {
+		return 0, false
+	}
+	addr := bytecode.DecodeRelativeAddr(ins, block, pos+ins.PCRelOff)
+	target := addr + pos + ins.Len
+	if (addr > 0 && target >= blockSize) || (addr < 0 && target < 0) {
+		return 0, false
+	}
+	return target, true
+}
+
+// checkInnerRefs 被拷贝区间内部的相对跳转保持原偏移量不变, 如果它跨越了被扩展的指令, 偏移量就不再指向原目标, 无法修复
+func checkInnerRefs(innerRefs [][3]int, newPos map[int]int, copied int) error {
+	for _, ref := range innerRefs {
+		oldEnd, target, newEnd := ref[0], ref[1], ref[2]
+		if target > copied {
+			// 目标不在被拷贝的区间内(第一轮扫描时 blockSize 为整个函数)
+			continue
+		}
+		newTarget, ok := newPos[target]
+		if !ok || newTarget-newEnd != target-oldEnd {
+			return fmt.Errorf("not support of relative address across an expanded instruction, target: %d", target)
+		}
+	}
+	return nil
 }
 
 // fixIns 替换单条指令的偏移地址
